@@ -72,6 +72,16 @@ const (
 	nCnr   = 3
 	perCnr = 12
 	maxExp = 9
+
+	// ids of the one size-split (v2) chain per container; the parent is virtual
+	partFirst, partMiddle, partLast, chainParent = 9, 10, 11, 12
+	kindPart                                     = "part"
+
+	// fpLatePart: a middle part (tied to its parent only through the first-part
+	// ID) stored after the parent's tombstone reads as removed but gets no garbage
+	// mark and is never collected (reported by builder-list, reproduced here).
+	fpLatePart  = "C44:split-part-put-after-parent-tombstone-never-collected"
+	whyLatePart = "split part stored after its parent's tombstone, reads as removed"
 )
 
 // id is an object of the C44 universe: container c, index i (IDs are never
@@ -120,6 +130,20 @@ func build(s spec) *object.Object {
 	o.SetVersion(&v)
 	var p []byte
 	switch s.kind {
+	case kindPart:
+		p = payload(s)
+		if s.id.i != partFirst {
+			o.SetFirstID(id{s.id.c, partFirst}.oid())
+		}
+		if s.id.i == partLast {
+			par := object.New(uni.Cnr(s.id.c), uni.Owner(0))
+			par.SetID(id{s.id.c, chainParent}.oid())
+			par.SetVersion(&v)
+			par.SetPayloadSize(27)
+			par.SetPayloadChecksum(checksum.NewSHA256(sha256.Sum256([]byte("whole"))))
+			o.SetParent(par)
+			o.SetParentID(par.GetID())
+		}
 	case uni.Lock:
 		o.AssociateLocked(id{s.id.c, s.target}.oid())
 	case uni.Tombstone:
@@ -236,7 +260,10 @@ type world struct {
 	rmCnr   map[int]bool
 	ops     []string
 	garbage int
-	blobs   []*faultstore.Store
+	// chainTomb[c]: a tombstone for the chain parent of container c was accepted
+	chainTomb map[int]bool
+	latePart  bool
+	blobs     []*faultstore.Store
 	// raced: a GC pass ran inside the write-cache flush window (class of fpFlushRace)
 	raced bool
 }
@@ -282,7 +309,7 @@ func (w *world) setGone(m *mobj, why string) {
 
 func (w *world) freshID(c int) (id, bool) {
 	var free []int
-	for i := 0; i < perCnr; i++ {
+	for i := 0; i < partFirst; i++ {
 		if _, used := w.objs[id{c, i}]; !used {
 			free = append(free, i)
 		}
@@ -379,6 +406,95 @@ func (w *world) actPut(kind string) {
 			w.setGone(tm, "tombstoned by "+k.String())
 		} else if tm == nil {
 			w.pre[tk] = true
+		}
+	}
+}
+
+// actPart stores one part of the container's split chain (incremental puts in
+// any order, also after the parent was tombstoned).
+func (w *world) actPart() {
+	t := w.t
+	c := w.liveCnr()
+	var free []int
+	for _, i := range []int{partFirst, partMiddle, partLast} {
+		if _, used := w.objs[id{c, i}]; !used {
+			free = append(free, i)
+		}
+	}
+	if len(free) == 0 {
+		t.Skip("chain complete")
+	}
+	k := id{c, rapid.SampledFrom(free).Draw(t, "part")}
+	if w.chainTomb[c] && k.i == partMiddle && ev.IsOpen("C44", fpLatePart) {
+		w.rec.Excluded(1)
+		t.Skip("known finding: " + fpLatePart)
+	}
+	s := spec{kind: kindPart, id: k, exp: -1, plen: 9}
+	m := &mobj{spec: s}
+	w.objs[k] = m
+	err := w.st.put(build(s))
+	w.logf("put part %s (%s) @%d -> %s", k, map[int]string{partFirst: "first", partMiddle: "middle: first-ID only", partLast: "last: parent header"}[k.i], w.epoch, errShort(err))
+	if err != nil {
+		m.expect, m.why = expGone, "put rejected"
+		return
+	}
+	m.accepted = true
+	m.expect = expStay
+	if w.pre[k] {
+		m.expect, m.why = expUnknown, "stored after a tombstone/mark for the absent ID"
+		return
+	}
+	if w.chainTomb[c] {
+		// the shard decides: if it reports the part as removed, it must also collect it
+		removed := false
+		for _, sh := range w.st.shards() {
+			if _, err := sh.Exists(k.addr(), false); errors.Is(err, apistatus.ErrObjectAlreadyRemoved) {
+				removed = true
+			}
+		}
+		if removed {
+			w.setGone(m, whyLatePart)
+			w.latePart = true
+		} else {
+			m.expect, m.why = expUnknown, "part stored after the parent's tombstone, chain no longer discoverable"
+		}
+	}
+}
+
+// actChainTomb tombstones the (virtual) parent of the container's split chain.
+func (w *world) actChainTomb() {
+	t := w.t
+	c := w.liveCnr()
+	k, ok := w.freshID(c)
+	if !ok {
+		t.Skip("container full")
+	}
+	s := spec{kind: uni.Tombstone, id: k, exp: w.expNear(), target: chainParent}
+	m := &mobj{spec: s}
+	w.objs[k] = m
+	err := w.st.put(build(s))
+	w.logf("put %s (chain parent) @%d -> %s", s, w.epoch, errShort(err))
+	if err != nil {
+		m.expect, m.why = expGone, "put rejected"
+		return
+	}
+	m.accepted = true
+	w.setGone(m, "has expiration")
+	discoverable := false
+	if l := w.objs[id{c, partLast}]; l != nil && l.accepted {
+		discoverable = true
+	}
+	first := !w.chainTomb[c]
+	w.chainTomb[c] = true
+	for _, i := range []int{partFirst, partMiddle, partLast} {
+		pm := w.objs[id{c, i}]
+		if pm == nil || !pm.accepted {
+			continue
+		}
+		if discoverable {
+			w.setGone(pm, "parent tombstoned by "+k.String())
+		} else if first && pm.expect == expStay {
+			pm.expect, pm.why = expUnknown, "parent tombstoned while the chain was not discoverable"
 		}
 	}
 }
@@ -642,7 +758,7 @@ func run(t *rapid.T, rec *ev.Recorder, engineMode bool) {
 		ev.Inconclusive("mkdtemp: %v", err)
 	}
 	defer os.RemoveAll(dir)
-	w := &world{t: t, rec: rec, ep: &stor.Epoch{}, objs: map[id]*mobj{}, pre: map[id]bool{}, rmCnr: map[int]bool{}}
+	w := &world{t: t, rec: rec, ep: &stor.Epoch{}, objs: map[id]*mobj{}, pre: map[id]bool{}, rmCnr: map[int]bool{}, chainTomb: map[int]bool{}}
 	w.batch = rapid.IntRange(1, 5).Draw(t, "batch")
 	w.wc = rapid.IntRange(0, 3).Draw(t, "write-cache") == 0
 	fsto := []fstree.Option{fstree.WithCombinedWriteInterval(200_000)} // 0.2 ms
@@ -715,7 +831,13 @@ func run(t *rapid.T, rec *ev.Recorder, engineMode bool) {
 			labels = append(labels, "gc-inside-flush-window")
 		}
 		if knownHit {
-			labels = append(labels, "known:"+fpFlushRace)
+			labels = append(labels, "known-finding-hit")
+		}
+		if len(w.chainTomb) > 0 {
+			labels = append(labels, "split-chain-tombstoned")
+		}
+		if w.latePart {
+			labels = append(labels, "part-after-parent-tombstone")
 		}
 		if nontrivial {
 			labels = append(labels, "garbage>batch")
@@ -734,6 +856,13 @@ func run(t *rapid.T, rec *ev.Recorder, engineMode bool) {
 		"put-tombstone": func(*rapid.T) { w.actPut(uni.Tombstone) },
 		"put-tombston2": func(*rapid.T) { w.actPut(uni.Tombstone) },
 		"mark":          func(*rapid.T) { w.actMark() },
+		"put-part":      func(*rapid.T) { w.actPart() },
+		"chain-tomb": func(t *rapid.T) {
+			if rapid.IntRange(0, 1).Draw(t, "really") != 0 {
+				t.Skip("sometimes")
+			}
+			w.actChainTomb()
+		},
 		"rm-container": func(t *rapid.T) {
 			if rapid.IntRange(0, 3).Draw(t, "really") != 0 {
 				t.Skip("rarely")
@@ -796,6 +925,21 @@ func run(t *rapid.T, rec *ev.Recorder, engineMode bool) {
 	})
 	w.logf("quiescent: %d passes at the fixed epoch, %d more (epoch+1, pass) rounds", roundsA, roundsB)
 	if bad := w.leftovers(); len(bad) > 0 {
+		if w.latePart {
+			only := true
+			for _, b := range bad {
+				if !strings.Contains(b, whyLatePart) {
+					only = false
+				}
+			}
+			if only && w.rec.Known(fpLatePart) {
+				knownHit = true
+				return
+			}
+			if only {
+				w.fail("never removed [%s]:\n  %s", fpLatePart, strings.Join(bad, "\n  "))
+			}
+		}
 		if w.raced {
 			onlyBlobs := true
 			for _, b := range bad {
